@@ -23,6 +23,7 @@ from ..callgraph import CallGraph
 from ..cfg import CFG
 from ..core import norm
 from ..kinds import Engine
+from ..facts import must_facts
 from ..pathcount import count_events
 from .common import known
 
@@ -245,6 +246,72 @@ def handler(ctx, model, nb):
     ok = norm(ac.node.body[-1]) == "self.catchexprs.append([err, expr])"
     ctx.check("C05.handler", ac, None, ok, "addCatch does not append [err, expr] in order", expr="addCatch",
               site="NodeBlock.addCatch: appends [err, expr]")
+    # clauses are hung only on the block being parsed, and a block with clauses is never replaced by its content
+    n_add = 0
+    for f in model.all_funcs(True):
+        for c in ast.walk(f.node):
+            if not (isinstance(c, ast.Call) and isinstance(c.func, ast.Attribute) and c.func.attr in ("addCatch", "addFinally")):
+                continue
+            recv = c.func.value
+            defs = [a for a in ast.walk(f.node) if isinstance(a, ast.Assign) and isinstance(recv, ast.Name)
+                    and any(isinstance(t, ast.Name) and t.id == recv.id for t in a.targets)]
+            ok = isinstance(recv, ast.Name) and len(defs) == 1 and isinstance(defs[0].value, ast.Call) \
+                and norm(defs[0].value.func) == "NodeBlock"
+            n_add += 1
+            ctx.check("C05.handler", f, c, ok,
+                      f"`{norm(c)[:60]}`: a catch / finally clause is attached to a block other than the one this "
+                      f"function is building: handlers of different blocks end up side by side and no longer protect "
+                      f"each other", site=f"{f.qual}: {c.func.attr} on the block under construction")
+    if n_add < 2:
+        ctx.broken("parser.py", "addCatch / addFinally calls not found")
+    pb = model.func(P, "parser", "parse_block")
+    from .common import resolve_static_call
+
+    def unwrap_checked(func, blocks, depth=0):
+        """every return of something other than the block itself happens where the block has no catch / finally"""
+        g_ = CFG(func.node, implicit_exc=False)
+        f_ = must_facts(g_)
+        for node in g_.nodes:
+            if node.kind != "return" or node.ast.value is None:
+                continue
+            v = node.ast.value
+            if isinstance(v, ast.Name) and v.id in blocks:
+                continue
+            have = f_.get(node.id, frozenset())
+            ok = all(any(t == f"{b}.{q}()" and not pol for t, pol in have) for b in blocks
+                     for q in ("hasFinally", "hasCatch"))
+            if not ok and isinstance(v, ast.Call) and depth < 2:
+                callee = resolve_static_call(model, func, v)
+                passed = [i for i, a in enumerate(v.args) if isinstance(a, ast.Name) and a.id in blocks]
+                if callee is not None and passed:
+                    cps = callee.params
+                    unwrap_checked(callee, {cps[i] for i in passed if i < len(cps)}, depth + 1)
+                    continue
+            ctx.check("C05.handler", func, node.ast, ok,
+                      f"{func.qual} returns `{norm(v)[:50]}` instead of the block it was building on a path where the "
+                      f"block may have catch or finally clauses",
+                      site=f"{func.qual}: a block is replaced by its only statement only when it has no catch and no "
+                           f"finally")
+
+    blocks = {a.targets[0].id for a in ast.walk(pb.node) if isinstance(a, ast.Assign) and isinstance(a.targets[0], ast.Name)
+              and isinstance(a.value, ast.Call) and norm(a.value.func) == "NodeBlock"}
+    if not blocks:
+        ctx.broken("parse_block", "the block under construction was not found")
+    unwrap_checked(pb, blocks)
+    for fld in ("catchexprs", "finallyexprs"):
+        for f in model.all_funcs(True):
+            if f.cls is not None and f.cls.name == "NodeBlock":
+                continue
+            for x in ast.walk(f.node):
+                if isinstance(x, ast.Attribute) and x.attr == fld:
+                    par_store = isinstance(x.ctx, ast.Store)
+                    mut = any(isinstance(c, ast.Call) and isinstance(c.func, ast.Attribute) and c.func.value is x
+                              and c.func.attr in MUTATORS for c in ast.walk(f.node))
+                    sub = any(isinstance(sb, ast.Subscript) and sb.value is x and isinstance(sb.ctx, (ast.Store, ast.Del))
+                              for sb in ast.walk(f.node))
+                    ctx.check("C05.handler", f, x, not (par_store or mut or sub),
+                              f"{f.qual} writes a block's `{fld}` from outside NodeBlock",
+                              site=f"{f.qual}: reads {fld} only")
     ne = model.method(P, "NodeError", "evaluate")
     r = [n for n in ast.walk(ne.node) if isinstance(n, ast.Raise)]
     ok = len(r) == 1 and isinstance(r[0].exc, ast.Call) and norm(r[0].exc.func) == "CklRuntimeError" \
